@@ -80,6 +80,66 @@ fn bump(uvi: usize, out: usize) {
 }
 static WL_FORWARD: AtomicU64 = AtomicU64::new(0);
 static WL_HEADER: AtomicU64 = AtomicU64::new(0);
+static WL_RANGE: AtomicU64 = AtomicU64::new(0);
+
+/// Second whitelist RULE, for parsers that are handed a bounded range
+/// (`ParseMessageBytes::parse_message_bytes`, typed RDATA): "The contents of
+/// the DNS message (up to and including the actual bytes to be parsed) is
+/// provided as `contents`" (src/new/base/parse/mod.rs:240-243) -- a name whose
+/// decompression needs octets at or after `limit` (the end of the range)
+/// cannot be resolved by the new codec by construction of its API, while the
+/// established codec always resolves against the whole message.
+fn name_excused_in_range(msg: &[u8], pos: usize, limit: usize) -> bool {
+    match (ref_name_ext(msg, pos, Rule::Rfc), ref_name_ext(msg, pos, Rule::Doc)) {
+        (Ok(_), Err(why)) => {
+            if why == "pointer-into-header" {
+                WL_HEADER.fetch_add(1, AO::Relaxed);
+            } else {
+                WL_FORWARD.fetch_add(1, AO::Relaxed);
+            }
+            true
+        }
+        (Ok((_, _, _, max_read)), Ok(_)) => {
+            if max_read > limit {
+                WL_RANGE.fetch_add(1, AO::Relaxed);
+                true
+            } else {
+                false
+            }
+        }
+        _ => false,
+    }
+}
+
+/// Record types for which typed accept/reject agreement is asserted: the
+/// RFC 1035 / RFC 3596 types whose format rules (fixed fields, compressible
+/// names) are the same in both codecs. For the other common types the two
+/// codecs deliberately validate differently (RFC-mandated "no compression",
+/// minimum lengths, ...); those differences are counted, not asserted.
+const K_CORE: &[u16] = &[1, 2, 5, 6, 12, 15, 28];
+
+static STRICTNESS: std::sync::Mutex<std::collections::BTreeMap<String, u64>> = std::sync::Mutex::new(std::collections::BTreeMap::new());
+
+/// Is a typed old=accept/new=reject difference on this record excused by a
+/// whitelist rule applied to a name inside its RDATA?
+fn typed_excused(msg: &[u8], it: &Item) -> bool {
+    let Ok((_, owner_end, _)) = ref_name(msg, it.pos, Rule::Rfc) else { return false };
+    let rd = owner_end + 10;
+    let rd_end = rd + it.rdata.len();
+    let mut positions = Vec::new();
+    match it.t {
+        2 | 5 | 12 => positions.push(rd),
+        15 => positions.push(rd + 2),
+        6 => {
+            positions.push(rd);
+            if let Ok((_, e, _)) = ref_name(msg, rd, Rule::Rfc) {
+                positions.push(e);
+            }
+        }
+        _ => {}
+    }
+    positions.into_iter().any(|p| name_excused_in_range(msg, p, rd_end))
+}
 
 // ---------------------------------------------------- reference name readers
 
@@ -102,6 +162,12 @@ enum Rule {
 /// Independent decompressor. Returns (uncompressed wire form, end position of
 /// the name in the stream, number of pointers followed).
 fn ref_name(msg: &[u8], pos: usize, rule: Rule) -> Result<(Vec<u8>, usize, usize), &'static str> {
+    ref_name_ext(msg, pos, rule).map(|(w, e, n, _)| (w, e, n))
+}
+
+/// As `ref_name`, additionally returning one past the highest octet index read.
+fn ref_name_ext(msg: &[u8], pos: usize, rule: Rule) -> Result<(Vec<u8>, usize, usize, usize), &'static str> {
+    let mut max_read = 0usize;
     let mut wire = Vec::new();
     let mut p = pos;
     let mut seg_start = pos;
@@ -111,7 +177,8 @@ fn ref_name(msg: &[u8], pos: usize, rule: Rule) -> Result<(Vec<u8>, usize, usize
         let l = *msg.get(p).ok_or("short")? as usize;
         if l == 0 {
             wire.push(0);
-            return Ok((wire, end.unwrap_or(p + 1), nptr));
+            max_read = max_read.max(p + 1);
+            return Ok((wire, end.unwrap_or(p + 1), nptr, max_read));
         } else if l < 64 {
             let lab = msg.get(p + 1..p + 1 + l).ok_or("short-label")?;
             if wire.len() + 1 + l > 254 {
@@ -120,12 +187,14 @@ fn ref_name(msg: &[u8], pos: usize, rule: Rule) -> Result<(Vec<u8>, usize, usize
             wire.push(l as u8);
             wire.extend_from_slice(lab);
             p += 1 + l;
+            max_read = max_read.max(p);
         } else if l >= 0xC0 {
             let lo = *msg.get(p + 1).ok_or("short-pointer")? as usize;
             let t = ((l & 0x3F) << 8) | lo;
             if end.is_none() {
                 end = Some(p + 2);
             }
+            max_read = max_read.max(p + 2);
             nptr += 1;
             match rule {
                 Rule::Rfc => {
@@ -598,4 +667,1540 @@ fn observe_new(msg: &[u8], offsets: &[usize], old_ends: &[Option<usize>]) -> Obs
     })();
     o.errs = errs;
     o
+}
+
+// ------------------------------------------------------- Part 1: the oracle
+
+fn parse_case_json(msg: &[u8], offsets: &[usize], family: &str) -> Value {
+    json!({"part": "parse", "family": family, "message": hex(msg), "offsets": offsets})
+}
+
+struct Cx<'a> {
+    ctx: &'a Ctx,
+    msg: &'a [u8],
+    offsets: &'a [usize],
+    family: &'a str,
+    verbose: bool,
+}
+impl Cx<'_> {
+    fn viol(&self, sig: &str, what: &str) {
+        if self.verbose {
+            println!("  VIOLATION {sig}: {what}");
+        }
+        self.ctx.violation(sig, what, parse_case_json(self.msg, self.offsets, self.family));
+    }
+}
+
+/// Generic differential comparison of one unit under one view.
+/// Returns true if both accepted with equal content.
+fn cmp_unit<T: PartialEq + std::fmt::Debug>(cx: &Cx, view: &str, pos: usize, old: &Option<T>, new: &Option<T>, wl: impl FnOnce() -> bool, field: impl Fn(&T, &T) -> &'static str) -> bool {
+    let u = uv(view);
+    match (old, new) {
+        (None, None) => {
+            bump(u, 1);
+            false
+        }
+        (Some(a), Some(b)) => {
+            if a == b {
+                bump(u, 0);
+                true
+            } else {
+                bump(u, 3);
+                cx.viol(&format!("C19|parse|unit={view}|both-accept|content-differs|field={}", field(a, b)), &format!("at offset {pos}: established codec gives {a:?}, new codec gives {b:?}"));
+                false
+            }
+        }
+        (Some(a), None) => {
+            if wl() {
+                bump(u, 2);
+            } else {
+                bump(u, 3);
+                cx.viol(&format!("C19|parse|unit={view}|old=accept,new=reject"), &format!("at offset {pos}: established codec accepts ({a:?}), new codec rejects, and no documented rule excuses it"));
+            }
+            false
+        }
+        (None, Some(b)) => {
+            bump(u, 3);
+            cx.viol(&format!("C19|parse|unit={view}|old=reject,new=accept"), &format!("at offset {pos}: established codec rejects, new codec accepts ({b:?})"));
+            false
+        }
+    }
+}
+
+fn name_field(a: &(Vec<u8>, usize), b: &(Vec<u8>, usize)) -> &'static str {
+    if a.0 != b.0 {
+        "labels"
+    } else {
+        let _ = b;
+        "end-position"
+    }
+}
+fn q_field(a: &(Vec<u8>, u16, u16, usize), b: &(Vec<u8>, u16, u16, usize)) -> &'static str {
+    if a.0 != b.0 {
+        "qname"
+    } else if a.1 != b.1 {
+        "qtype"
+    } else if a.2 != b.2 {
+        "qclass"
+    } else {
+        "end-position"
+    }
+}
+fn r_field(a: &(Vec<u8>, u16, u16, u32, Vec<u8>, usize), b: &(Vec<u8>, u16, u16, u32, Vec<u8>, usize)) -> &'static str {
+    if a.0 != b.0 {
+        "owner"
+    } else if a.1 != b.1 {
+        "type"
+    } else if a.2 != b.2 {
+        "class"
+    } else if a.3 != b.3 {
+        "ttl"
+    } else if a.4 != b.4 {
+        "rdata"
+    } else {
+        "end-position"
+    }
+}
+fn item_field(a: &Item, b: &Item) -> &'static str {
+    if a.sec != b.sec {
+        "section"
+    } else if a.pos != b.pos {
+        "position"
+    } else if a.name != b.name {
+        "name"
+    } else if a.t != b.t {
+        "type"
+    } else if a.c != b.c {
+        "class"
+    } else if a.ttl != b.ttl {
+        "ttl"
+    } else {
+        "rdata"
+    }
+}
+
+struct CaseSummary {
+    nontrivial: bool,
+}
+
+fn compare(cx: &Cx, old: &Obs, new: &Obs) -> CaseSummary {
+    let msg = cx.msg;
+    let mut nontrivial = false;
+    for e in &old.errs {
+        cx.viol(&format!("C19|parse|{e}"), e);
+    }
+    for e in &new.errs {
+        cx.viol(&format!("C19|parse|{e}"), e);
+    }
+    for (i, &pos) in cx.offsets.iter().enumerate() {
+        if pos < 12 || pos > msg.len() || new.names.len() <= i || old.names.len() <= i {
+            continue;
+        }
+        let mut wl_cache: Option<bool> = None;
+        let mut wl = || *wl_cache.get_or_insert_with(|| whitelisted(msg, pos));
+        // compressed names, four views
+        for (vi, view) in ["name/NameBuf.split", "name/RevNameBuf.split", "name/NameBuf.parse", "name/RevNameBuf.parse"].iter().enumerate() {
+            let both = if vi < 2 {
+                cmp_unit(cx, view, pos, &old.names[i][vi], &new.names[i][vi], &mut wl, name_field)
+            } else {
+                // the bounded-range views are handed the octets up to the end of the name
+                let limit = old.names[i][vi].as_ref().map(|x| x.1).unwrap_or(msg.len());
+                cmp_unit(cx, view, pos, &old.names[i][vi], &new.names[i][vi], || name_excused_in_range(msg, pos, limit), name_field)
+            };
+            if both {
+                if let Ok((_, _, n)) = ref_name(msg, pos, Rule::Rfc) {
+                    nontrivial |= n > 0;
+                }
+            }
+        }
+        // UnparsedName: U1 and U2
+        {
+            let u = uv("name/UnparsedName");
+            let on = &old.names[i][0];
+            match (on, new.skip[i]) {
+                (Some((_, oe)), Some(ne)) => {
+                    if *oe == ne {
+                        bump(u, 0);
+                    } else {
+                        bump(u, 3);
+                        cx.viol("C19|parse|unit=name/UnparsedName|both-accept|content-differs|field=end-position", &format!("at offset {pos}: ParsedName ends at {oe}, UnparsedName at {ne}"));
+                    }
+                }
+                (Some(_), None) => {
+                    if wl() {
+                        bump(u, 2);
+                    } else {
+                        bump(u, 3);
+                        cx.viol("C19|parse|unit=name/UnparsedName|old=accept,new=reject", &format!("at offset {pos}: the established codec (and the RFC and the new codec's documented pointer rule) accept the name, UnparsedName::split_message_bytes rejects it"));
+                    }
+                }
+                (None, None) => bump(u, 1),
+                (None, Some(_)) => bump(u, 4),
+            }
+            if let Some(ne) = new.skip[i] {
+                if old.skip[i] != Some(ne) {
+                    cx.viol("C19|parse|unit=name/UnparsedName|accepts-what-ParsedName::skip-does-not", &format!("at offset {pos}: UnparsedName ends at {ne}, ParsedName::skip gives {:?}", old.skip[i]));
+                }
+            }
+        }
+        for (vi, view) in ["flat/&Name", "flat/NameBuf", "flat/RevNameBuf"].iter().enumerate() {
+            cmp_unit(cx, view, pos, &old.flat[i][vi], &new.flat[i][vi], || false, name_field);
+        }
+        for (vi, view) in ["question/RevNameBuf", "question/NameBuf"].iter().enumerate() {
+            cmp_unit(cx, view, pos, &old.questions[i][vi], &new.questions[i][vi], &mut wl, q_field);
+        }
+        for (vi, view) in ["record/RevNameBuf", "record/NameBuf"].iter().enumerate() {
+            if cmp_unit(cx, view, pos, &old.records[i][vi], &new.records[i][vi], &mut wl, r_field) {
+                nontrivial |= old.records[i][vi].as_ref().map(|r| !r.4.is_empty()).unwrap_or(false);
+            }
+        }
+        cmp_unit(cx, "charstr/&CharStr", pos, &old.charstr[i], &new.charstr[i], || false, name_field);
+    }
+    // whole message
+    let uh = uv("message/header");
+    match (&old.msg, &new.msg) {
+        (None, None) => bump(uh, 1),
+        (Some(_), None) => {
+            bump(uh, 3);
+            cx.viol("C19|parse|unit=message/header|old=accept,new=reject", "established codec accepts the octets as a message, new codec does not");
+        }
+        (None, Some(_)) => {
+            bump(uh, 3);
+            cx.viol("C19|parse|unit=message/header|old=reject,new=accept", "new codec accepts the octets as a message, established codec does not");
+        }
+        (Some(o), Some(n)) => {
+            if o.header == n.header {
+                bump(uh, 0);
+            } else {
+                bump(uh, 3);
+                cx.viol("C19|parse|unit=message/header|content-differs", &format!("header (id, flags, counts): established {:?}, new {:?}", o.header, n.header));
+            }
+            nontrivial |= compare_messages(cx, o, n);
+        }
+    }
+    CaseSummary { nontrivial }
+}
+
+/// Returns true if both accepted at least one item.
+fn compare_messages(cx: &Cx, o: &MsgObs, n: &MsgObs) -> bool {
+    let msg = cx.msg;
+    let um = uv("message/opaque");
+    let common = o.items.len().min(n.items.len());
+    let mut agreed = common;
+    let mut ok = true;
+    for i in 0..common {
+        if o.items[i] != n.items[i] {
+            bump(um, 3);
+            cx.viol(&format!("C19|parse|unit=message/opaque|item-content-differs|field={}", item_field(&o.items[i], &n.items[i])), &format!("item {i}: established {:?}, new {:?}", o.items[i], n.items[i]));
+            agreed = i;
+            ok = false;
+            break;
+        }
+    }
+    if ok {
+        if o.items.len() > n.items.len() {
+            let it = &o.items[n.items.len()];
+            if whitelisted(msg, it.pos) {
+                bump(um, 2);
+            } else {
+                bump(um, 3);
+                cx.viol(&format!("C19|parse|unit=message/opaque|old=accept,new=reject|section={}", it.sec), &format!("item {} at offset {}: established codec yields {:?}, new codec fails at {:?}", n.items.len(), it.pos, it, n.err_at));
+            }
+        } else if n.items.len() > o.items.len() {
+            let it = &n.items[o.items.len()];
+            bump(um, 3);
+            cx.viol(&format!("C19|parse|unit=message/opaque|old=reject,new=accept|section={}", it.sec), &format!("item {} at offset {}: new codec yields {:?}, established codec fails at {:?}", o.items.len(), it.pos, it, o.err_at));
+        } else if o.err_at != n.err_at {
+            bump(um, 3);
+            cx.viol("C19|parse|unit=message/opaque|error-position-differs", &format!("after {} equal items: established codec error at {:?}, new codec error at {:?}", common, o.err_at, n.err_at));
+        } else if o.err_at.is_some() {
+            bump(um, 1);
+        } else {
+            bump(um, 0);
+        }
+    }
+    // typed view of every record both accepted structurally
+    let ut = uv("typed-record");
+    for i in 0..agreed {
+        let (Some(ot), Some(nt)) = (&o.typed[i], &n.typed[i]) else { continue };
+        let t = o.items[i].t;
+        if K_BOTH.contains(&t) && !K_CORE.contains(&t) {
+            // content must be equal when both accept; acceptance differences are only counted
+            match (ot, nt) {
+                (Ok(a), Ok(b)) => {
+                    if a.1 == b.1 {
+                        bump(ut, 0);
+                    } else {
+                        bump(ut, 3);
+                        cx.viol(&format!("C19|parse|unit=typed-record|rtype={t}|both-accept|recomposed-rdata-differs"), &format!("item {i} at {}: established codec recomposes RDATA as {}, new codec as {}", o.items[i].pos, hex(&a.1), hex(&b.1)));
+                    }
+                }
+                (Err(()), Err(())) => bump(ut, 1),
+                (a, _) => {
+                    bump(ut, 4);
+                    let k = format!("rtype={t}|{}", if a.is_ok() { "old=accept,new=reject" } else { "old=reject,new=accept" });
+                    let mut g = STRICTNESS.lock().unwrap();
+                    let e = g.entry(k).or_insert(0);
+                    *e += 1;
+                    if *e == 1 && cx.verbose {
+                        println!("  (not asserted) typed strictness difference");
+                    }
+                }
+            }
+        } else if K_BOTH.contains(&t) {
+            match (ot, nt) {
+                (Ok(a), Ok(b)) => {
+                    if a.1 == b.1 {
+                        bump(ut, 0);
+                    } else {
+                        bump(ut, 3);
+                        cx.viol(&format!("C19|parse|unit=typed-record|rtype={t}|both-accept|recomposed-rdata-differs"), &format!("item {i} at {}: established codec recomposes RDATA as {}, new codec as {}", o.items[i].pos, hex(&a.1), hex(&b.1)));
+                    }
+                }
+                (Err(()), Err(())) => bump(ut, 1),
+                (Ok(_), Err(())) if typed_excused(msg, &o.items[i]) => bump(ut, 2),
+                (Ok(a), Err(())) => {
+                    bump(ut, 3);
+                    cx.viol(&format!("C19|parse|unit=typed-record|rtype={t}|old=accept,new=reject"), &format!("item {i} at {}: RDATA {} of type {t}: established typed parser accepts (recomposed {}), new typed parser rejects", o.items[i].pos, hex(&o.items[i].rdata), hex(&a.1)));
+                }
+                (Err(()), Ok(b)) => {
+                    bump(ut, 3);
+                    cx.viol(&format!("C19|parse|unit=typed-record|rtype={t}|old=reject,new=accept"), &format!("item {i} at {}: RDATA {} of type {t}: established typed parser rejects, new typed parser accepts (recomposed {})", o.items[i].pos, hex(&o.items[i].rdata), hex(&b.1)));
+                }
+            }
+        } else {
+            match nt {
+                Ok((true, b)) if *b == o.items[i].rdata => bump(ut, 4),
+                other => {
+                    bump(ut, 3);
+                    cx.viol("C19|parse|unit=typed-record|type-unknown-to-new-codec|not-passed-through-verbatim", &format!("item {i} type {t}: new typed view gives {other:?} for RDATA {}", hex(&o.items[i].rdata)));
+                }
+            }
+        }
+    }
+    // MessageParser (mid-level API) must be the low-level API applied in sequence
+    let up = uv("message/MessageParser");
+    let mut expect: Vec<bool> = Vec::new();
+    let mut stopped = false;
+    for i in 0..n.items.len() {
+        match &n.typed[i] {
+            None | Some(Ok(_)) => expect.push(true),
+            Some(Err(())) => {
+                expect.push(false);
+                stopped = true;
+                break;
+            }
+        }
+    }
+    if !stopped && n.err_at.is_some() {
+        expect.push(false);
+    }
+    let got: Vec<bool> = n.mp.iter().map(|x| x.is_ok()).collect();
+    if got != expect {
+        bump(up, 3);
+        cx.viol("C19|parse|unit=message/MessageParser|sequence-differs-from-low-level-API", &format!("MessageParser yields ok/err sequence {got:?}, the documented low-level API applied item by item gives {expect:?}"));
+    } else {
+        let mut same = true;
+        for (i, x) in n.mp.iter().enumerate() {
+            if let Ok((it, typed)) = x {
+                let mut want = n.items[i].clone();
+                want.rdata = vec![];
+                let want_typed = match &n.typed[i] {
+                    Some(Ok((_, v))) => v.clone(),
+                    _ => vec![],
+                };
+                if *it != want || *typed != want_typed {
+                    same = false;
+                    cx.viol(&format!("C19|parse|unit=message/MessageParser|item-content-differs|field={}", if *it != want { item_field(it, &want) } else { "typed-rdata" }), &format!("item {i}: MessageParser {it:?} / {}, low-level API {want:?} / {}", hex(typed), hex(&want_typed)));
+                    break;
+                }
+            }
+        }
+        bump(up, if !same { 3 } else if got.iter().all(|x| *x) { 0 } else { 1 });
+    }
+    agreed > 0
+}
+
+fn run_parse_case(ctx: &Ctx, stats: &Stats, wd: &Watchdog, msg: &[u8], offsets: &[usize], family: &str) {
+    stats.eval();
+    wd.enter(|| parse_case_json(msg, offsets, family));
+    let old = guard(|| observe_old(msg, offsets));
+    let old_ends: Vec<Option<usize>> = match &old {
+        Ok(o) => o.names.iter().map(|n| n[0].as_ref().map(|x| x.1)).collect(),
+        Err(_) => vec![None; offsets.len()],
+    };
+    let new = guard(|| observe_new(msg, offsets, &old_ends));
+    wd.leave();
+    let cx = Cx { ctx, msg, offsets, family, verbose: ctx.replay.is_some() };
+    match (&old, &new) {
+        (Ok(o), Ok(n)) => {
+            if cx.verbose {
+                println!("established codec: names {:?}\n  questions {:?}\n  records {:?}\n  message {:?}", o.names.iter().map(|x| &x[0]).collect::<Vec<_>>(), o.questions.iter().map(|x| &x[0]).collect::<Vec<_>>(), o.records.iter().map(|x| &x[0]).collect::<Vec<_>>(), o.msg);
+                println!("new codec: names {:?}\n  unparsed {:?}\n  questions {:?}\n  records {:?}\n  message {:?}", n.names, n.skip, n.questions, n.records, n.msg);
+            }
+            let s = compare(&cx, o, n);
+            if s.nontrivial {
+                stats.nontrivial.fetch_add(1, AO::Relaxed);
+                stats.distinct(fnv(msg));
+            }
+        }
+        _ => {
+            if let Err(p) = &old {
+                cx.viol(&format!("C19|parse|panic|codec=established|{}", panic_class(p)), p);
+            }
+            if let Err(p) = &new {
+                cx.viol(&format!("C19|parse|panic|codec=new|{}", panic_class(p)), p);
+            }
+        }
+    }
+}
+
+// --------------------------------------------------------- the generator
+// (token grammar of the C01 harness, copied so that C19 sees the same corpus)
+
+fn name_variants(pos: usize, landmarks: &[usize], full: bool) -> Vec<Vec<u8>> {
+    let ptr = |t: usize| vec![0xC0 | ((t >> 8) as u8 & 0x3F), t as u8];
+    let mut v: Vec<Vec<u8>> = vec![vec![0], vec![1, b'a', 0], ptr(12), ptr(pos)];
+    let mut la = vec![1, b'a'];
+    la.extend(ptr(12));
+    v.push(la);
+    for &l in landmarks {
+        v.push(ptr(l));
+    }
+    if full {
+        v.push(vec![1, b'A', 0]);
+        let mut l63 = vec![63];
+        l63.extend(std::iter::repeat(b'x').take(63));
+        let mut n255 = Vec::new();
+        for k in [63usize, 63, 63, 61] {
+            n255.push(k as u8);
+            n255.extend(std::iter::repeat(b'y').take(k));
+        }
+        let mut n256 = n255.clone();
+        n256[192] = 62; // last label one longer
+        n256.push(b'y');
+        n255.push(0);
+        n256.push(0);
+        let mut one63 = l63.clone();
+        one63.push(0);
+        v.push(one63);
+        v.push(n255);
+        v.push(n256);
+        // 254 octets of labels followed by a pointer to a name -> too long only after decompression
+        let mut long_ptr = Vec::new();
+        for k in [63usize, 63, 63, 60] {
+            long_ptr.push(k as u8);
+            long_ptr.extend(std::iter::repeat(b'z').take(k));
+        }
+        long_ptr.extend(ptr(12));
+        v.push(long_ptr);
+        let mut loop_label = vec![1, b'a'];
+        loop_label.extend(ptr(pos));
+        v.push(loop_label); // pointer back to own start: loop through a label
+        v.push(ptr(pos + 2)); // forward
+        v.push(ptr(pos + 1)); // into itself
+        v.push(ptr(0x3FFF));
+        v.push(ptr(0));
+        v.push(ptr(2));
+        v.push(vec![0x40, 0]);
+        v.push(vec![0x80, 1, 0]);
+        v.push(vec![5, b'a']); // label overrunning into the following fields
+        v.push(vec![]); // missing name
+        for &l in landmarks {
+            let mut x = vec![1, b'x'];
+            x.extend(ptr(l));
+            v.push(x);
+            v.push(ptr(l + 1));
+        }
+    }
+    v
+}
+
+/// (rtype, rdata variants). Names inside RDATA: `nm` builder gets the
+/// absolute position where the name will sit.
+fn rdata_variants(rtype: u16, rd_pos: usize, full: bool) -> Vec<Vec<u8>> {
+    let ptr = |t: usize| vec![0xC0 | ((t >> 8) as u8 & 0x3F), t as u8];
+    let nm: Vec<Vec<u8>> = if full { vec![vec![1, b'b', 0], ptr(12), ptr(rd_pos), vec![]] } else { vec![vec![1, b'b', 0], ptr(12)] };
+    let cat = |parts: &[&[u8]]| parts.iter().flat_map(|p| p.iter().cloned()).collect::<Vec<u8>>();
+    let mut good: Vec<Vec<u8>> = Vec::new();
+    let mut extra: Vec<Vec<u8>> = Vec::new();
+    match rtype {
+        1 => good.push(vec![1, 2, 3, 4]),
+        28 => good.push(vec![0; 16]),
+        2 | 5 | 12 | 39 | 7 | 8 | 9 | 3 | 4 => {
+            for n in &nm {
+                good.push(n.clone());
+            }
+        }
+        6 => {
+            for n in &nm {
+                good.push(cat(&[n, &[1, b'r', 0], &[0; 20]]));
+            }
+            extra.push(cat(&[&ptr(12), &ptr(12), &[0; 19]]));
+            extra.push(cat(&[&ptr(12), &ptr(12), &[0; 21]]));
+        }
+        15 => {
+            for n in &nm {
+                good.push(cat(&[&[0, 10], n]));
+            }
+            extra.push(vec![0]);
+        }
+        14 | 17 => {
+            for n in &nm {
+                good.push(cat(&[n, &[1, b'e', 0]]));
+            }
+        }
+        16 => {
+            good.push(vec![3, b'a', b'b', b'c']);
+            extra.push(vec![5, b'a']);
+            extra.push(vec![0]);
+            extra.push(vec![1, b'a', 0, 2, b'b', b'c']);
+            let mut long = vec![255];
+            long.extend(std::iter::repeat(b't').take(255));
+            extra.push(long);
+        }
+        13 => {
+            good.push(vec![1, b'a', 1, b'b']);
+            extra.push(vec![1, b'a', 5, b'b']);
+        }
+        33 => {
+            for n in &nm {
+                good.push(cat(&[&[0, 1, 0, 2, 0, 80], n]));
+            }
+        }
+        41 => {
+            good.push(vec![]);
+            good.push(vec![0, 8, 0, 4, 0, 1, 24, 0]); // client subnet short
+            good.push(vec![0, 8, 0, 7, 0, 1, 24, 0, 192, 0, 2]);
+            good.push(vec![0, 10, 0, 8, 1, 2, 3, 4, 5, 6, 7, 8]); // cookie
+            extra.push(vec![0, 10, 0, 7, 1, 2, 3, 4, 5, 6, 7]); // bad cookie length
+            extra.push(vec![0, 3, 0, 2, b'n', b's']);
+            extra.push(vec![0, 12, 0, 3, 0, 0, 0]);
+            extra.push(vec![0, 15, 0, 1, 0]); // extended error short
+            extra.push(vec![0, 15, 0, 4, 0, 1, 0xff, 0xfe]); // ede with non-utf8 text
+            extra.push(vec![0, 11, 0, 1, 0]); // keepalive bad len
+            extra.push(vec![0, 11, 0, 2, 0, 1]);
+            extra.push(vec![0, 5, 0, 1, 8]); // DAU
+            extra.push(vec![0, 14, 0, 3, 0, 1, 0]); // key tag odd
+            extra.push(vec![0, 9, 0, 4, 0, 0, 0, 1]); // expire
+            extra.push(vec![0, 9, 0, 3, 0, 0, 0]);
+            extra.push(vec![0, 3, 0, 9, 1]); // option overruns
+            extra.push(vec![0, 3, 0]); // truncated option header
+            extra.push(vec![0xff, 0xff, 0, 0]);
+        }
+        46 => {
+            for n in &nm {
+                good.push(cat(&[&[0, 1, 8, 2, 0, 0, 14, 16, 0, 0, 0, 2, 0, 0, 0, 1, 0x12, 0x34], n, &[9, 9, 9]]));
+            }
+            extra.push(vec![0; 17]);
+        }
+        47 => {
+            for n in &nm {
+                good.push(cat(&[n, &[0, 1, 0x40]]));
+            }
+            extra.push(cat(&[&[0], &[0, 0]])); // empty window
+            extra.push(cat(&[&[0], &[0, 33], &[1; 33]]));
+            extra.push(cat(&[&[0], &[0, 2, 0x40]])); // truncated window
+            extra.push(cat(&[&[0], &[1, 1, 0x40, 0, 1, 0x40]])); // windows out of order
+            extra.push(cat(&[&[0], &[0, 1, 0x40, 0, 1, 0x40]])); // duplicate window
+            extra.push(cat(&[&[0], &[0, 1, 0]])); // zero octet
+            extra.push(cat(&[&[0], &[0xff, 32], &[0xff; 32]]));
+            extra.push(vec![0]);
+        }
+        50 => {
+            good.push(vec![1, 0, 0, 1, 1, 0xab, 2, 0xc, 0xd, 0, 1, 0x40]);
+            extra.push(vec![1, 0, 0, 1, 5, 0xab]); // salt overrun
+            extra.push(vec![1, 0, 0, 1, 0, 9, 1]); // hash overrun
+            extra.push(vec![1, 0, 0, 1, 0, 0]); // empty hash
+            extra.push(vec![1, 0, 0, 1, 0, 1, 7, 0, 0]); // empty window
+        }
+        51 => {
+            good.push(vec![1, 0, 0, 1, 1, 0xab]);
+            extra.push(vec![1, 0, 0, 1, 2, 0xab]);
+        }
+        48 | 60 => good.push(vec![1, 1, 3, 8, 1, 2, 3]),
+        43 | 59 => good.push(vec![0x12, 0x34, 8, 2, 1, 2, 3, 4]),
+        64 | 65 => {
+            for n in &nm {
+                good.push(cat(&[&[0, 1], n]));
+                good.push(cat(&[&[0, 1], n, &[0, 1, 0, 3, 2, b'h', b'2', 0, 3, 0, 2, 1, 187]]));
+            }
+            extra.push(cat(&[&[0, 1, 0], &[0, 3, 0, 2, 1, 187, 0, 1, 0, 3, 2, b'h', b'2']])); // out of order
+            extra.push(cat(&[&[0, 1, 0], &[0, 1, 0, 3, 2, b'h', b'2', 0, 1, 0, 3, 2, b'h', b'2']])); // duplicate
+            extra.push(cat(&[&[0, 1, 0], &[0, 1, 0, 9, 2, b'h']])); // param overrun
+            extra.push(cat(&[&[0, 1, 0], &[0, 1, 0, 3, 5, b'h', b'2']])); // alpn inner overrun
+            extra.push(cat(&[&[0, 1, 0], &[0, 0, 0, 2, 0, 1]])); // mandatory
+            extra.push(cat(&[&[0, 1, 0], &[0, 0, 0, 3, 0, 1, 0]])); // mandatory odd
+            extra.push(cat(&[&[0, 1, 0], &[0, 4, 0, 5, 1, 2, 3, 4, 5]])); // ipv4hint bad len
+            extra.push(cat(&[&[0, 1, 0], &[0, 6, 0, 4, 1, 2, 3, 4]])); // ipv6hint bad len
+            extra.push(cat(&[&[0, 1, 0], &[0, 3, 0, 1, 1]])); // port bad len
+            extra.push(cat(&[&[0, 1, 0], &[0, 2, 0, 1, 1]])); // no-default-alpn with value
+            extra.push(cat(&[&[0, 1, 0], &[0, 1]])); // truncated param header
+            extra.push(cat(&[&[0, 1, 0], &[0xff, 0xff, 0, 0]]));
+        }
+        250 => {
+            for n in &nm {
+                good.push(cat(&[n, &[0, 0, 0, 0, 0, 1, 1, 44, 0, 2, 7, 7, 0x12, 0x34, 0, 0, 0, 0]]));
+            }
+            extra.push(cat(&[&[0], &[0, 0, 0, 0, 0, 1, 1, 44, 0, 9, 7, 7, 0x12, 0x34, 0, 0, 0, 0]])); // mac overrun
+            extra.push(cat(&[&[0], &[0, 0, 0, 0, 0, 1, 1, 44, 0, 0, 0x12, 0x34, 0, 18, 0, 6, 0, 0, 0, 0, 0, 2]])); // BADTIME other
+            extra.push(cat(&[&[0], &[0, 0, 0, 0, 0, 1, 1, 44, 0, 0, 0x12, 0x34, 0, 0, 0, 9, 1]])); // other overrun
+        }
+        257 => {
+            good.push(vec![0, 3, b't', b'a', b'g', b'v']);
+            extra.push(vec![0, 9, b't']);
+            extra.push(vec![0, 0]);
+        }
+        35 => {
+            for n in &nm {
+                good.push(cat(&[&[0, 1, 0, 2, 1, b'f', 1, b's', 1, b'r'], n]));
+            }
+            extra.push(vec![0, 1, 0, 2, 1, b'f', 9, b's']);
+        }
+        52 => good.push(vec![3, 1, 1, 0xaa, 0xbb]),
+        44 => good.push(vec![1, 1, 0xaa, 0xbb]),
+        45 => {
+            good.push(vec![10, 0, 2, 1, 2, 3]); // no gateway
+            good.push(vec![10, 1, 2, 192, 0, 2, 1, 1, 2, 3]);
+            good.push(cat(&[&[10, 2, 2], &[0; 16], &[1, 2]]));
+            for n in &nm {
+                good.push(cat(&[&[10, 3, 2], n, &[1, 2]]));
+            }
+            extra.push(vec![10, 4, 2, 1]); // unknown gateway type
+            extra.push(vec![10, 1, 2, 192, 0]);
+        }
+        61 => good.push(vec![1, 2, 3]),
+        63 => good.push(vec![0, 0, 0, 1, 1, 1, 0xaa, 0xbb]),
+        10 => good.push(vec![1, 2, 3]),
+        _ => good.push(vec![0xde, 0xad]),
+    }
+    let mut v = good.clone();
+    if full {
+        v.extend(extra);
+        // systematic: first good value truncated by one, extended by one, and empty
+        if let Some(g) = good.first() {
+            if !g.is_empty() {
+                v.push(g[..g.len() - 1].to_vec());
+            }
+            let mut e = g.clone();
+            e.push(0);
+            v.push(e);
+            v.push(vec![]);
+        }
+    } else {
+        v.truncate(1);
+    }
+    v
+}
+
+const TYPES_FULL: &[u16] = &[1, 2, 5, 6, 12, 13, 14, 15, 16, 17, 28, 33, 35, 39, 41, 43, 44, 45, 46, 47, 48, 50, 51, 52, 59, 60, 61, 63, 64, 65, 250, 257, 10, 3, 65280];
+const TYPES_REDUCED: &[u16] = &[1, 5, 6, 16, 41, 47, 64, 250];
+
+#[derive(Clone)]
+struct GItem {
+    bytes: Vec<u8>,
+    section: usize, // 0 question, 1 an, 2 ns, 3 ar
+    landmarks: Vec<usize>,
+}
+
+/// All items that can be appended at `pos` given earlier landmarks.
+fn items(pos: usize, landmarks: &[usize], full: bool, quick: bool) -> Vec<GItem> {
+    let mut out = Vec::new();
+    let names = name_variants(pos, landmarks, full);
+    // questions
+    let qtypes: &[u16] = if full { &[1, 5, 252, 251, 255] } else { &[1, 252] };
+    for n in &names {
+        for qt in qtypes {
+            let mut b = n.clone();
+            b.extend_from_slice(&qt.to_be_bytes());
+            b.extend_from_slice(&[0, 1]);
+            out.push(GItem { bytes: b, section: 0, landmarks: vec![pos] });
+        }
+    }
+    // records
+    let types = if full { TYPES_FULL } else { TYPES_REDUCED };
+    let classes: &[u16] = if full && !quick { &[1, 255, 254] } else { &[1] };
+    let ttls: &[u32] = if full { &[0, 0xFFFF_FFFF] } else { &[60] };
+    for (ni, n) in names.iter().enumerate() {
+        for &rt in types {
+            // full rdata menus only with the first three owner shapes, reduced ones otherwise
+            let rd_pos = pos + n.len() + 10;
+            let rds = rdata_variants(rt, rd_pos, full && ni < 3);
+            for (ri, rd) in rds.iter().enumerate() {
+                let rdlens: Vec<usize> = if full && ri == 0 { vec![rd.len(), rd.len().wrapping_sub(1) & 0xFFFF, rd.len() + 1, 0, 0xFFFF] } else { vec![rd.len()] };
+                for (li, rl) in rdlens.iter().enumerate() {
+                    for &cl in classes {
+                        for &ttl in ttls {
+                            if (li > 0 || cl != 1) && ttl != 0 && full {
+                                continue; // vary one of (rdlen, class, ttl) at a time
+                            }
+                            for sec in if full { vec![1usize, 3] } else { vec![1usize, 2, 3] } {
+                                if rt == 41 && sec != 3 && !full {
+                                    continue;
+                                }
+                                let mut b = n.clone();
+                                b.extend_from_slice(&rt.to_be_bytes());
+                                b.extend_from_slice(&cl.to_be_bytes());
+                                b.extend_from_slice(&ttl.to_be_bytes());
+                                b.extend_from_slice(&(*rl as u16).to_be_bytes());
+                                b.extend_from_slice(rd);
+                                out.push(GItem { bytes: b, section: sec, landmarks: vec![pos, rd_pos, rd_pos + rd.len() / 2] });
+                            }
+                        }
+                    }
+                }
+            }
+        }
+    }
+    out
+}
+
+fn header_id(id: u16, flags: u16, counts: [u16; 4]) -> Vec<u8> {
+    let mut h = id.to_be_bytes().to_vec();
+    h.extend_from_slice(&flags.to_be_bytes());
+    for c in counts {
+        h.extend_from_slice(&c.to_be_bytes());
+    }
+    h
+}
+
+fn count_variants(actual: [u16; 4], full: bool) -> Vec<[u16; 4]> {
+    let mut v = vec![actual];
+    if full {
+        let last = (0..4).rev().find(|i| actual[*i] > 0).unwrap_or(1);
+        let mut plus = actual;
+        plus[last] += 1;
+        v.push(plus);
+        v.push([0; 4]);
+        let mut big = actual;
+        big[1] = 0xFFFF;
+        v.push(big);
+        let mut big3 = actual;
+        big3[3] = 0xFFFF;
+        v.push(big3);
+        let mut q2 = actual;
+        q2[0] += 1;
+        v.push(q2);
+    }
+    v
+}
+
+fn assemble(id: u16, items: &[&GItem], flags: u16, counts: [u16; 4]) -> Vec<u8> {
+    let mut m = header_id(id, flags, counts);
+    for i in items {
+        m.extend_from_slice(&i.bytes);
+    }
+    m
+}
+
+// ------------------------------------------------------- Part 2: builders
+
+type ON = ob::Name<Vec<u8>>;
+type ORd = AllRecordData<Vec<u8>, ON>;
+
+fn wire_of(labels: &[&[u8]]) -> Vec<u8> {
+    let mut v = Vec::new();
+    for l in labels {
+        v.push(l.len() as u8);
+        v.extend_from_slice(l);
+    }
+    v.push(0);
+    v
+}
+
+const NAME_DESC: [&str; 6] = ["example.com.", "www.example.com.", "WWW.EXAMPLE.COM.", "mail.example.com.", "<255 octets>.example.com.", "abcd\\007example.com. (label containing the octets of a label boundary)"];
+
+fn build_names() -> Vec<Vec<u8>> {
+    let x = [b'x'; 63];
+    let y = [b'y'; 63];
+    let z = [b'z'; 63];
+    let w = [b'w'; 49];
+    vec![
+        wire_of(&[b"example", b"com"]),
+        wire_of(&[b"www", b"example", b"com"]),
+        wire_of(&[b"WWW", b"EXAMPLE", b"COM"]),
+        wire_of(&[b"mail", b"example", b"com"]),
+        wire_of(&[&x, &y, &z, &w, b"example", b"com"]),
+        wire_of(&[b"abcd\x07example", b"com"]),
+    ]
+}
+
+#[derive(Clone, Copy, Debug, PartialEq)]
+enum Rd {
+    A,
+    Cname(usize),
+    Ns(usize),
+}
+
+#[derive(Clone, Copy, Debug, PartialEq)]
+enum Op {
+    Q(usize),
+    R(u8, usize, Rd),
+    /// an unknown-type record with root owner in the answer section whose
+    /// RDATA length makes the record END at this message offset
+    PadTo(usize),
+}
+
+const OPS: [Op; 14] = [
+    Op::Q(1),
+    Op::Q(0),
+    Op::R(1, 1, Rd::A),
+    Op::R(1, 2, Rd::Cname(3)),
+    Op::R(1, 5, Rd::A),
+    Op::R(1, 0, Rd::Ns(5)),
+    Op::R(2, 3, Rd::Ns(4)),
+    Op::R(3, 4, Rd::A),
+    Op::PadTo(16370),
+    Op::PadTo(16380),
+    Op::PadTo(16383),
+    Op::PadTo(16384),
+    Op::PadTo(16395),
+    Op::PadTo(16396),
+];
+
+fn op_desc(op: Op) -> String {
+    match op {
+        Op::Q(n) => format!("question {} A", NAME_DESC[n]),
+        Op::R(s, n, rd) => format!(
+            "{} record {} {}",
+            ["", "answer", "authority", "additional"][s as usize],
+            NAME_DESC[n],
+            match rd {
+                Rd::A => "A 192.0.2.1".to_string(),
+                Rd::Cname(t) => format!("CNAME {}", NAME_DESC[t]),
+                Rd::Ns(t) => format!("NS {}", NAME_DESC[t]),
+            }
+        ),
+        Op::PadTo(t) => format!("answer record . TYPE65280 padded so that it ends at message offset {t}"),
+    }
+}
+
+#[derive(Clone, Debug, PartialEq)]
+struct Norm {
+    sec: u8,
+    name: Vec<u8>,
+    t: u16,
+    c: u16,
+    ttl: u32,
+    rdata: Vec<u8>,
+}
+
+const PAD_TYPE: u16 = 65280;
+const TTL: u32 = 300;
+
+fn intended(op: Op, names: &[Vec<u8>], padlen: usize) -> Norm {
+    match op {
+        Op::Q(n) => Norm { sec: 0, name: names[n].to_ascii_lowercase(), t: 1, c: 1, ttl: 0, rdata: vec![] },
+        Op::R(s, n, rd) => {
+            let (t, rdata) = match rd {
+                Rd::A => (1, vec![192, 0, 2, 1]),
+                Rd::Cname(x) => (5, names[x].to_ascii_lowercase()),
+                Rd::Ns(x) => (2, names[x].to_ascii_lowercase()),
+            };
+            Norm { sec: s, name: names[n].to_ascii_lowercase(), t, c: 1, ttl: TTL, rdata }
+        }
+        Op::PadTo(_) => Norm { sec: 1, name: vec![0], t: PAD_TYPE, c: 1, ttl: TTL, rdata: vec![0xEE; padlen] },
+    }
+}
+
+fn op_section(op: Op) -> usize {
+    match op {
+        Op::Q(_) => 0,
+        Op::R(s, _, _) => s as usize,
+        Op::PadTo(_) => 1,
+    }
+}
+
+/// Pad RDATA length so that a root-owner record starting at `cur` ends at `t`.
+fn pad_len(cur: usize, t: usize) -> Option<usize> {
+    if cur + 11 <= t && t - cur - 11 <= 65535 {
+        Some(t - cur - 11)
+    } else {
+        None
+    }
+}
+
+#[derive(Default)]
+struct BuildOut {
+    msg: Vec<u8>,
+    want: Vec<Norm>,
+    /// harness-level complaints about individual operations
+    errs: Vec<String>,
+    accepted: u32,
+    misplaced: u32,
+    pad_skipped: u32,
+}
+
+enum OB {
+    Q(QuestionBuilder<TreeCompressor<Vec<u8>>>),
+    An(AnswerBuilder<TreeCompressor<Vec<u8>>>),
+    Ns(AuthorityBuilder<TreeCompressor<Vec<u8>>>),
+    Ar(AdditionalBuilder<TreeCompressor<Vec<u8>>>),
+}
+impl OB {
+    fn len(&self) -> usize {
+        match self {
+            OB::Q(b) => b.as_slice().len(),
+            OB::An(b) => b.as_slice().len(),
+            OB::Ns(b) => b.as_slice().len(),
+            OB::Ar(b) => b.as_slice().len(),
+        }
+    }
+    fn goto(self, s: usize) -> OB {
+        match (self, s) {
+            (OB::Q(x), 0) => OB::Q(x),
+            (OB::Q(x), 1) => OB::An(x.answer()),
+            (OB::Q(x), 2) => OB::Ns(x.authority()),
+            (OB::Q(x), _) => OB::Ar(x.additional()),
+            (OB::An(x), 1) => OB::An(x),
+            (OB::An(x), 2) => OB::Ns(x.authority()),
+            (OB::An(x), _) => OB::Ar(x.additional()),
+            (OB::Ns(x), 2) => OB::Ns(x),
+            (OB::Ns(x), _) => OB::Ar(x.additional()),
+            (OB::Ar(x), _) => OB::Ar(x),
+        }
+    }
+    fn finish(self) -> Vec<u8> {
+        match self {
+            OB::Q(b) => b.finish().into_target(),
+            OB::An(b) => b.finish().into_target(),
+            OB::Ns(b) => b.finish().into_target(),
+            OB::Ar(b) => b.finish().into_target(),
+        }
+    }
+}
+
+fn oname(w: &[u8]) -> ON {
+    ON::from_octets(w.to_vec()).expect("valid name")
+}
+
+fn run_old(ops: &[Op], names: &[Vec<u8>]) -> BuildOut {
+    let mut out = BuildOut::default();
+    let mut b = OB::Q(ob::MessageBuilder::from_target(TreeCompressor::new(Vec::<u8>::new())).expect("target").question());
+    let mut counts = [0usize; 4];
+    for &op in ops {
+        let s = op_section(op);
+        if counts[s + 1..].iter().any(|c| *c > 0) {
+            out.misplaced += 1;
+            continue;
+        }
+        let mut padlen = 0;
+        if let Op::PadTo(t) = op {
+            match pad_len(b.len(), t) {
+                Some(l) => padlen = l,
+                None => {
+                    out.pad_skipped += 1;
+                    continue;
+                }
+            }
+        }
+        b = b.goto(s);
+        let ok = match op {
+            Op::Q(n) => match &mut b {
+                OB::Q(q) => q.push(ob::Question::new(oname(&names[n]), ob::iana::Rtype::A, ob::iana::Class::IN)).is_ok(),
+                _ => unreachable!(),
+            },
+            Op::R(_, n, rd) => {
+                let data: ORd = match rd {
+                    Rd::A => ORd::A(domain::rdata::A::from_octets(192, 0, 2, 1)),
+                    Rd::Cname(x) => ORd::Cname(domain::rdata::Cname::new(oname(&names[x]))),
+                    Rd::Ns(x) => ORd::Ns(domain::rdata::Ns::new(oname(&names[x]))),
+                };
+                let rec = ob::Record::new(oname(&names[n]), ob::iana::Class::IN, ob::Ttl::from_secs(TTL), data);
+                match &mut b {
+                    OB::An(x) => x.push(rec).is_ok(),
+                    OB::Ns(x) => x.push(rec).is_ok(),
+                    OB::Ar(x) => x.push(rec).is_ok(),
+                    _ => unreachable!(),
+                }
+            }
+            Op::PadTo(_) => {
+                let data: ORd = ORd::Unknown(OldUnknown::from_octets(ob::iana::Rtype::from_int(PAD_TYPE), vec![0xEE; padlen]).expect("pad"));
+                let rec = ob::Record::new(oname(&[0]), ob::iana::Class::IN, ob::Ttl::from_secs(TTL), data);
+                match &mut b {
+                    OB::An(x) => x.push(rec).is_ok(),
+                    _ => unreachable!(),
+                }
+            }
+        };
+        if ok {
+            counts[s] += 1;
+            out.accepted += 1;
+            out.want.push(intended(op, names, padlen));
+        } else {
+            out.errs.push("established-builder|push-refused-with-unbounded-target".into());
+        }
+    }
+    out.msg = b.finish();
+    out
+}
+
+fn push_q<N: domain::new::base::build::BuildInMessage>(b: &mut NewBuilder<'_, '_>, qname: N) -> Result<(), MessageBuildError> {
+    b.push_question(&nb::Question { qname, qtype: nb::QType::A, qclass: nb::QClass::IN })
+}
+
+fn push_rec<N: domain::new::base::build::BuildInMessage>(b: &mut NewBuilder<'_, '_>, sec: u8, rname: N, rtype: nb::RType, rdata: NRecordData<'_, &NName>) -> Result<(), MessageBuildError> {
+    let rec = nb::Record { rname, rtype, rclass: nb::RClass::IN, ttl: nb::TTL::from(TTL), rdata };
+    match sec {
+        1 => b.push_answer(&rec),
+        2 => b.push_authority(&rec),
+        _ => b.push_additional(&rec).map_err(MessageBuildError::Truncated),
+    }
+}
+
+/// `rev_owner`: owner names and qnames are given as RevNameBuf (compress_revname),
+/// otherwise as &Name (compress_name); names in RDATA are always &Name.
+fn run_new(ops: &[Op], names: &[Vec<u8>], rev_owner: bool) -> BuildOut {
+    let mut out = BuildOut::default();
+    let mut buffer = vec![0u8; 24 * 1024];
+    let mut compressor = NameCompressor::new();
+    let mut b = NewBuilder::new(&mut buffer, &mut compressor, U16::new(0), HeaderFlags::default());
+    let mut counts = [0usize; 4];
+    let pad_store = vec![0xEEu8; 17000];
+    let nbufs: Vec<NameBuf> = names.iter().map(|w| NameBuf::parse_bytes(w).expect("valid name")).collect();
+    let revs: Vec<RevNameBuf> = names.iter().map(|w| RevNameBuf::parse_bytes(w).expect("valid name")).collect();
+    let root_n = NameBuf::parse_bytes(&[0]).expect("root");
+    let root_r = RevNameBuf::parse_bytes(&[0]).expect("root");
+    for &op in ops {
+        let s = op_section(op);
+        let misplaced = counts[s + 1..].iter().any(|c| *c > 0);
+        let cur = 12 + b.message().contents.len();
+        let mut padlen = 0;
+        if let Op::PadTo(t) = op {
+            match pad_len(cur, t) {
+                Some(l) => padlen = l,
+                None => {
+                    if !misplaced {
+                        out.pad_skipped += 1;
+                        continue;
+                    }
+                }
+            }
+        }
+        let res: Result<(), MessageBuildError> = match op {
+            Op::Q(n) => {
+                if rev_owner {
+                    push_q(&mut b, revs[n].clone())
+                } else {
+                    push_q::<&NName>(&mut b, &nbufs[n])
+                }
+            }
+            Op::R(sec, n, rd) => {
+                let (rtype, rdata): (nb::RType, NRecordData<'_, &NName>) = match rd {
+                    Rd::A => (nb::RType::A, NRecordData::A(domain::new::rdata::A { octets: [192, 0, 2, 1] })),
+                    Rd::Cname(x) => (nb::RType::CNAME, NRecordData::CName(domain::new::rdata::CName { name: &*nbufs[x] })),
+                    Rd::Ns(x) => (nb::RType::NS, NRecordData::Ns(domain::new::rdata::Ns { server: &*nbufs[x] })),
+                };
+                if rev_owner {
+                    push_rec(&mut b, sec, revs[n].clone(), rtype, rdata)
+                } else {
+                    push_rec::<&NName>(&mut b, sec, &nbufs[n], rtype, rdata)
+                }
+            }
+            Op::PadTo(_) => {
+                let data = NewUnknown::parse_bytes_by_ref(&pad_store[..padlen]).expect("unknown data");
+                let rdata = NRecordData::<'_, &NName>::Unknown(nb::RType::from(PAD_TYPE), data);
+                if rev_owner {
+                    push_rec(&mut b, 1, root_r.clone(), nb::RType::from(PAD_TYPE), rdata)
+                } else {
+                    push_rec::<&NName>(&mut b, 1, &root_n, nb::RType::from(PAD_TYPE), rdata)
+                }
+            }
+        };
+        match (misplaced, res) {
+            (true, Err(MessageBuildError::Misplaced)) => out.misplaced += 1,
+            (true, other) => out.errs.push(format!("new-builder|item-for-an-earlier-section|expected-Misplaced|got={}", if other.is_ok() { "Ok" } else { "Truncated" })),
+            (false, Ok(())) => {
+                counts[s] += 1;
+                out.accepted += 1;
+                out.want.push(intended(op, names, padlen));
+            }
+            (false, Err(e)) => out.errs.push(format!("new-builder|push-refused-with-ample-buffer|{}", if e == MessageBuildError::Misplaced { "Misplaced" } else { "Truncated" })),
+        }
+    }
+    use domain::new::base::wire::AsBytes;
+    out.msg = b.finish().as_bytes().to_vec();
+    out
+}
+
+fn lc(v: &[u8]) -> Vec<u8> {
+    v.to_ascii_lowercase()
+}
+
+fn read_indep(msg: &[u8]) -> Result<(Vec<Norm>, usize, usize), String> {
+    let m = mc::wire::read_message(msg)?;
+    if m.end != msg.len() {
+        return Err(format!("{} trailing octets", msg.len() - m.end));
+    }
+    let mut v = Vec::new();
+    for q in &m.questions {
+        v.push(Norm { sec: 0, name: lc(&mc::wire::to_wire(&q.qname)), t: q.qtype, c: q.qclass, ttl: 0, rdata: vec![] });
+    }
+    let mut ptrs = m.pointers.clone();
+    for (s, sec) in m.sections.iter().enumerate() {
+        for r in sec {
+            let rdata = if r.rtype == 2 || r.rtype == 5 {
+                let (labels, after) = mc::wire::read_name(msg, r.rdata_pos, &mut ptrs)?;
+                if after != r.rdata_pos + r.rdata.len() {
+                    return Err("RDATA length does not match the name in it".into());
+                }
+                lc(&mc::wire::to_wire(&labels))
+            } else {
+                r.rdata.clone()
+            };
+            v.push(Norm { sec: s as u8 + 1, name: lc(&mc::wire::to_wire(&r.owner)), t: r.rtype, c: r.class, ttl: r.ttl, rdata });
+        }
+    }
+    let max_target = ptrs.iter().map(|p| p.1).max().unwrap_or(0);
+    Ok((v, ptrs.len(), max_target))
+}
+
+fn norm_from_obs(mo: &MsgObs, who: &str) -> Result<Vec<Norm>, String> {
+    if let Some((s, p)) = mo.err_at {
+        return Err(format!("{who} fails in section {s} at offset {p}"));
+    }
+    let total: usize = mo.header.2.iter().map(|c| *c as usize).sum();
+    if mo.items.len() != total {
+        return Err(format!("{who} yields {} items, header counts say {total}", mo.items.len()));
+    }
+    let mut v = Vec::new();
+    for (i, it) in mo.items.iter().enumerate() {
+        let rdata = if it.t == 2 || it.t == 5 {
+            match &mo.typed[i] {
+                Some(Ok((_, d))) => lc(d),
+                _ => return Err(format!("{who}: typed parse of item {i} (type {}) fails", it.t)),
+            }
+        } else {
+            match &mo.typed[i] {
+                Some(Err(())) => return Err(format!("{who}: typed parse of item {i} (type {}) fails", it.t)),
+                _ => it.rdata.clone(),
+            }
+        };
+        v.push(Norm { sec: it.sec, name: lc(&it.name), t: it.t, c: it.c, ttl: it.ttl, rdata });
+    }
+    Ok(v)
+}
+
+fn read_old(msg: &[u8]) -> Result<Vec<Norm>, String> {
+    let o = observe_old(msg, &[]);
+    if let Some(e) = o.errs.first() {
+        return Err(e.clone());
+    }
+    norm_from_obs(o.msg.as_ref().ok_or("established codec: not a message")?, "established codec")
+}
+
+fn read_new(msg: &[u8]) -> Result<Vec<Norm>, String> {
+    let o = observe_new(msg, &[], &[]);
+    if let Some(e) = o.errs.first() {
+        return Err(e.clone());
+    }
+    let mo = o.msg.as_ref().ok_or("new codec: not a message")?;
+    let v = norm_from_obs(mo, "new codec")?;
+    if mo.mp.len() != mo.items.len() || mo.mp.iter().any(|x| x.is_err()) {
+        return Err("new codec: MessageParser does not yield all items".into());
+    }
+    for (i, x) in mo.mp.iter().enumerate() {
+        if let Ok((it, _)) = x {
+            let a = &mo.items[i];
+            if (it.sec, it.pos, &it.name, it.t, it.c, it.ttl) != (a.sec, a.pos, &a.name, a.t, a.c, a.ttl) {
+                return Err(format!("new codec: MessageParser item {i} differs from the low-level view"));
+            }
+        }
+    }
+    Ok(v)
+}
+
+fn first_diff(want: &[Norm], got: &[Norm]) -> String {
+    if want.len() != got.len() {
+        return format!("{} items pushed, {} read", want.len(), got.len());
+    }
+    for (i, (w, g)) in want.iter().zip(got).enumerate() {
+        if w != g {
+            let f = if w.sec != g.sec {
+                "section"
+            } else if w.name != g.name {
+                "name"
+            } else if w.t != g.t {
+                "type"
+            } else if w.c != g.c {
+                "class"
+            } else if w.ttl != g.ttl {
+                "ttl"
+            } else {
+                "rdata"
+            };
+            let show = |n: &Norm| if n.rdata.len() > 64 { format!("{} octets", n.rdata.len()) } else { hex(&n.rdata) };
+            return format!("item {i} field {f}: pushed name={} type={} rdata={}, read name={} type={} rdata={}", hex(&w.name), w.t, show(w), hex(&g.name), g.t, show(g));
+        }
+    }
+    "equal".into()
+}
+
+struct BuildStats {
+    sequences: AtomicU64,
+    with_pointers: AtomicU64,
+    crossing: AtomicU64,
+    pointers: AtomicU64,
+    max_target: AtomicU64,
+    accepted: AtomicU64,
+    misplaced: AtomicU64,
+    pad_skipped: AtomicU64,
+    checks_ok: AtomicU64,
+}
+
+fn cause_of(ops: &[Op], len: usize) -> &'static str {
+    let uses = |n: usize| ops.iter().any(|o| matches!(o, Op::Q(x) | Op::R(_, x, _) if *x == n) || matches!(o, Op::R(_, _, Rd::Ns(x) | Rd::Cname(x)) if *x == n));
+    if len > 0x4000 && ops.iter().any(|o| matches!(o, Op::PadTo(_))) {
+        "message-crosses-offset-0x4000"
+    } else if uses(5) {
+        "name-with-label-boundary-lookalike-octets"
+    } else if uses(4) {
+        "255-octet-name"
+    } else {
+        "plain-names"
+    }
+}
+
+fn run_build_case(ctx: &Ctx, stats: &Stats, bs: &BuildStats, wd: &Watchdog, idx: &[usize], names: &[Vec<u8>]) {
+    let ops: Vec<Op> = idx.iter().map(|i| OPS[*i]).collect();
+    let verbose = ctx.replay.is_some();
+    for builder in ["established/TreeCompressor", "new/owner=RevNameBuf", "new/owner=&Name"] {
+        stats.eval();
+        bs.sequences.fetch_add(1, AO::Relaxed);
+        let case = || json!({"part": "build", "ops": idx, "ops_text": ops.iter().map(|o| op_desc(*o)).collect::<Vec<_>>(), "builder": builder});
+        wd.enter(case);
+        let built = guard(|| match builder {
+            "established/TreeCompressor" => run_old(&ops, names),
+            "new/owner=RevNameBuf" => run_new(&ops, names, true),
+            _ => run_new(&ops, names, false),
+        });
+        let out = match built {
+            Ok(o) => o,
+            Err(p) => {
+                wd.leave();
+                ctx.violation(&format!("C19|build|builder={}|panic|{}", builder.replace('/', "(") + ")", panic_class(&p)), &format!("{builder}: {p}"), case());
+                if verbose {
+                    println!("{builder}: PANIC {p}");
+                }
+                continue;
+            }
+        };
+        let other = if builder.starts_with("new") { "established" } else { "new" };
+        let r_other = guard(|| if other == "new" { read_new(&out.msg) } else { read_old(&out.msg) });
+        wd.leave();
+        bs.accepted.fetch_add(out.accepted as u64, AO::Relaxed);
+        bs.misplaced.fetch_add(out.misplaced as u64, AO::Relaxed);
+        bs.pad_skipped.fetch_add(out.pad_skipped as u64, AO::Relaxed);
+        for e in &out.errs {
+            ctx.violation(&format!("C19|build|{e}"), e, case());
+        }
+        let cause = cause_of(&ops, out.msg.len());
+        if verbose {
+            println!("{builder}: {} octets, {} items accepted, {} misplaced, {} pads skipped", out.msg.len(), out.accepted, out.misplaced, out.pad_skipped);
+            let shown: Vec<u8> = out.msg.iter().cloned().filter(|b| *b != 0xEE).collect();
+            println!("  octets without the 0xEE padding: {}", hex(&shown));
+        }
+        let indep = read_indep(&out.msg);
+        let mut all_ok = true;
+        let bsig = builder.replace('/', "(") + ")";
+        let indep_ok = match &indep {
+            Ok((got, nptr, maxt)) => {
+                if verbose {
+                    println!("  independent reader: {} items, {nptr} pointers, max target {maxt}: {}", got.len(), first_diff(&out.want, got));
+                }
+                if *nptr > 0 {
+                    bs.with_pointers.fetch_add(1, AO::Relaxed);
+                    bs.pointers.fetch_add(*nptr as u64, AO::Relaxed);
+                    bs.max_target.fetch_max(*maxt as u64, AO::Relaxed);
+                    stats.nontrivial.fetch_add(1, AO::Relaxed);
+                    let mut key = idx.iter().fold(0xcbf29ce484222325u64, |h, i| (h ^ (*i as u64 + 1)).wrapping_mul(0x100000001b3));
+                    key ^= fnv(builder.as_bytes());
+                    stats.distinct(key | 1 << 62);
+                }
+                if out.msg.len() > 0x4000 {
+                    bs.crossing.fetch_add(1, AO::Relaxed);
+                }
+                if *got != out.want {
+                    all_ok = false;
+                    ctx.violation(&format!("C19|build|builder={bsig}|output-does-not-read-back-as-pushed(independent-reader)|cause={cause}"), &format!("{builder}: {}", first_diff(&out.want, got)), case());
+                    false
+                } else {
+                    true
+                }
+            }
+            Err(e) => {
+                all_ok = false;
+                if verbose {
+                    println!("  independent reader: ERROR {e}");
+                }
+                ctx.violation(&format!("C19|build|builder={bsig}|output-does-not-read-back-as-pushed(independent-reader)|cause={cause}"), &format!("{builder}: independent reader: {e}"), case());
+                false
+            }
+        };
+        match r_other {
+            Ok(Ok(got)) => {
+                if verbose {
+                    println!("  {other} codec's parser: {} items: {}", got.len(), first_diff(&out.want, &got));
+                }
+                if got != out.want {
+                    all_ok = false;
+                    // a garbled output is reported once, above; here only a reader-side disagreement
+                    if indep_ok {
+                        ctx.violation(&format!("C19|build|builder={bsig}|read-by={other}|content-differs-although-independent-reader-agrees-with-pushed|cause={cause}"), &format!("{builder}: {}", first_diff(&out.want, &got)), case());
+                    }
+                }
+            }
+            Ok(Err(e)) => {
+                all_ok = false;
+                if verbose {
+                    println!("  {other} codec's parser: ERROR {e}");
+                }
+                if indep_ok {
+                    ctx.violation(&format!("C19|build|builder={bsig}|read-by={other}|rejected-although-independent-reader-agrees-with-pushed|cause={cause}"), &format!("{builder}: {e}"), case());
+                }
+            }
+            Err(p) => {
+                all_ok = false;
+                ctx.violation(&format!("C19|build|builder={bsig}|read-by={other}|panic|{}", panic_class(&p)), &p, case());
+            }
+        }
+        if all_ok {
+            bs.checks_ok.fetch_add(1, AO::Relaxed);
+        }
+    }
+}
+
+// --------------------------------------------------------------------- main
+
+fn offsets_of(items: &[&GItem], len: usize) -> Vec<usize> {
+    let mut v = vec![12usize];
+    for i in items {
+        v.extend(i.landmarks.iter().cloned());
+    }
+    v.retain(|p| *p <= len);
+    v.sort();
+    v.dedup();
+    v
+}
+
+fn main() {
+    let ctx = Ctx::new("C19", "exploration");
+    let stats = Arc::new(Stats::new());
+    let wd = Watchdog::start(ctx.clone(), Duration::from_secs(20), |d| format!("C19|hang|part={}|family={}", d["part"].as_str().unwrap_or("?"), d["family"].as_str().or(d["builder"].as_str()).unwrap_or("?")));
+    let names = build_names();
+    let bs = BuildStats {
+        sequences: AtomicU64::new(0),
+        with_pointers: AtomicU64::new(0),
+        crossing: AtomicU64::new(0),
+        pointers: AtomicU64::new(0),
+        max_target: AtomicU64::new(0),
+        accepted: AtomicU64::new(0),
+        misplaced: AtomicU64::new(0),
+        pad_skipped: AtomicU64::new(0),
+        checks_ok: AtomicU64::new(0),
+    };
+    if let Some(path) = &ctx.replay {
+        let v: Value = serde_json::from_str(&std::fs::read_to_string(path).expect("replay file")).expect("json");
+        let case = &v["case"];
+        println!("replaying {}", v["signature"]);
+        if case["part"].as_str() == Some("build") {
+            let idx: Vec<usize> = case["ops"].as_array().expect("ops").iter().map(|x| x.as_u64().unwrap() as usize).collect();
+            for i in &idx {
+                println!("  op {}: {}", i, op_desc(OPS[*i]));
+            }
+            run_build_case(&ctx, &stats, &bs, &wd, &idx, &names);
+        } else {
+            let msg = unhex(case["message"].as_str().expect("case.message"));
+            let offsets: Vec<usize> = case["offsets"].as_array().map(|a| a.iter().map(|x| x.as_u64().unwrap() as usize).collect()).unwrap_or_else(|| vec![12]);
+            println!("message of {} octets, units at offsets {:?}", msg.len(), offsets);
+            run_parse_case(&ctx, &stats, &wd, &msg, &offsets, "replay");
+        }
+        ctx.finish(json!({"evaluations": stats.evals(), "distinct_nontrivial": stats.distinct_count(), "rule": "replay", "samples": [case.clone()], "exhaustive": false}), &[]);
+    }
+    let quick = ctx.quick();
+    let flagsets: &[u16] = &[0x0000, 0x8400, 0x8200 | 0x2800];
+    let pc = |m: &[u8], items: &[&GItem], family: &str| {
+        let offs = offsets_of(items, m.len());
+        run_parse_case(&ctx, &stats, &wd, m, &offs, family);
+    };
+
+    // ---------------- Part 1
+    // one-item messages: full menus x all header variants
+    let first = items(12, &[], true, quick);
+    stats.count_n("gen.first_items_full", first.len() as u64);
+    first.par_iter().for_each(|it| {
+        let mut actual = [0u16; 4];
+        actual[it.section] = 1;
+        for counts in count_variants(actual, true) {
+            for &fl in flagsets {
+                let m = assemble(0xABCD, &[it], fl, counts);
+                pc(&m, &[it], "one-item");
+            }
+            // an ID whose first octet is a root label, so pointers into the header resolve
+            let m = assemble(0x0001, &[it], 0x8400, counts);
+            pc(&m, &[it], "one-item");
+        }
+        let m = assemble(0xABCD, &[it], 0x8400, actual);
+        if it.bytes.len() <= 48 {
+            for cut in 12..m.len() {
+                pc(&m[..cut], &[it], "one-item-truncated");
+            }
+        }
+    });
+    // two-item messages: (full, reduced) and (reduced, full)
+    let first_reduced = items(12, &[], false, quick);
+    stats.count_n("gen.first_items_reduced", first_reduced.len() as u64);
+    first.par_iter().for_each(|a| {
+        let pos = 12 + a.bytes.len();
+        for b in items(pos, &a.landmarks, false, quick) {
+            if b.section < a.section {
+                continue;
+            }
+            let mut actual = [0u16; 4];
+            actual[a.section] += 1;
+            actual[b.section] += 1;
+            let m = assemble(0xABCD, &[a, &b], 0x8400, actual);
+            pc(&m, &[a, &b], "two-items-full-reduced");
+        }
+    });
+    first_reduced.par_iter().for_each(|a| {
+        let pos = 12 + a.bytes.len();
+        for b in items(pos, &a.landmarks, true, quick) {
+            if b.section < a.section {
+                continue;
+            }
+            let mut actual = [0u16; 4];
+            actual[a.section] += 1;
+            actual[b.section] += 1;
+            for counts in count_variants(actual, !quick) {
+                let m = assemble(0xABCD, &[a, &b], 0x8400, counts);
+                pc(&m, &[a, &b], "two-items-reduced-full");
+            }
+        }
+    });
+    // three items, reduced menus (thorough only)
+    if !quick {
+        first_reduced.par_iter().for_each(|a| {
+            let pos = 12 + a.bytes.len();
+            for b in items(pos, &a.landmarks, false, quick) {
+                if b.section < a.section {
+                    continue;
+                }
+                let pos2 = pos + b.bytes.len();
+                let mut lm = a.landmarks.clone();
+                lm.extend(b.landmarks.iter().cloned());
+                lm.truncate(4);
+                for c in items(pos2, &lm, false, quick) {
+                    if c.section < b.section {
+                        continue;
+                    }
+                    let mut actual = [0u16; 4];
+                    actual[a.section] += 1;
+                    actual[b.section] += 1;
+                    actual[c.section] += 1;
+                    let m = assemble(0xABCD, &[a, &b, &c], 0x8400, actual);
+                    pc(&m, &[a, &b, &c], "three-items-reduced");
+                }
+            }
+        });
+    }
+    // raw: every byte string of length n over 9 symbols after each header,
+    // units at every offset
+    let raw: Vec<u8> = vec![0x00, 0x01, 0x3F, 0x40, 0x80, 0xC0, 0x0C, 0xFF, b'a'];
+    let rawlen = if quick { 5 } else { 6 };
+    let headers = [header_id(0xABCD, 0x8400, [1, 0, 0, 0]), header_id(0xABCD, 0x8400, [0, 1, 0, 0]), header_id(0xABCD, 0x8400, [0, 0, 0, 1]), header_id(0x0001, 0, [1, 1, 0, 0])];
+    for n in 0..=rawlen {
+        let total = pow(raw.len(), n);
+        (0..total).into_par_iter().for_each(|k| {
+            let mut body = Vec::new();
+            nth_string(&raw, n, k, &mut body);
+            for h in &headers {
+                let mut m = h.clone();
+                m.extend_from_slice(&body);
+                let offs: Vec<usize> = (12..=m.len()).collect();
+                run_parse_case(&ctx, &stats, &wd, &m, &offs, "raw");
+            }
+        });
+    }
+    for n in 0..12 {
+        run_parse_case(&ctx, &stats, &wd, &vec![0xC0; n], &[12], "short");
+    }
+    let mut big = header_id(0xABCD, 0x8400, [0, 0xFFFF, 0, 0]);
+    while big.len() < 65535 {
+        big.extend_from_slice(&[0xC0, 0x0C]);
+    }
+    big.truncate(65535);
+    run_parse_case(&ctx, &stats, &wd, &big, &[12, 14, 65533], "max-size-pointers");
+    let parse_evals = stats.evals();
+
+    // ---------------- Part 2
+    let depth = if quick { 4 } else { 5 };
+    let a = OPS.len();
+    for d in 1..=depth {
+        (0..pow(a, d)).into_par_iter().for_each(|k| {
+            let mut idx = Vec::new();
+            let all: Vec<usize> = (0..a).collect();
+            nth_string(&all, d, k, &mut idx);
+            run_build_case(&ctx, &stats, &bs, &wd, &idx, &names);
+        });
+    }
+
+    stats.sample(1, || json!({"part": "parse", "family": "one-item", "message": hex(&assemble(0xABCD, &[&first[first.len() / 2]], 0x8400, [0, 1, 0, 0]))}));
+    stats.sample(2, || json!({"part": "parse", "family": "raw", "message": hex(&[&headers[0][..], &[0xC0, 0x0C, 0x00, 0x01, 0x00][..]].concat())}));
+    let sample_ops: Vec<String> = [1usize, 8, 2, 4].iter().map(|i| op_desc(OPS[*i])).collect();
+    stats.sample(3, || json!({"part": "build", "ops": [1, 8, 2, 4], "ops_text": sample_ops}));
+    let mut hist = serde_json::Map::new();
+    let mut outcomes_seen = 0;
+    for (u, name) in UV.iter().enumerate() {
+        let mut m = serde_json::Map::new();
+        for (o, oname) in OUT.iter().enumerate() {
+            let c = COUNTS[u][o].load(AO::Relaxed);
+            if c > 0 {
+                outcomes_seen += 1;
+            }
+            m.insert(oname.to_string(), json!(c));
+        }
+        hist.insert(name.to_string(), Value::Object(m));
+    }
+    let g = |x: &AtomicU64| x.load(AO::Relaxed);
+    let cov = json!({
+        "evaluations": stats.evals(),
+        "distinct_nontrivial": stats.nontrivial.load(AO::Relaxed).min(stats.distinct_count()),
+        "rule": "Part 1: one case = one message (C01 grammar: header variants x 1..2 items (quick) / 1..3 items (thorough) from per-field menus with pointers to every landmark; every truncation of short one-item messages; every raw body over 9 symbols to raw_len after 4 headers) with every unit (compressed name in 4 views + UnparsedName, flat name in 3 views, question and record in 2 views each, character string) parsed at every landmark offset (raw: every offset) and the whole message parsed through the iterators / low-level API / MessageParser by both codecs; non-trivial = both codecs accepted a name containing a compression pointer, a record with non-empty RDATA, or at least one whole-message item; distinct = distinct message octets. Part 2: one case = (operation sequence, builder); non-trivial = the built message contains at least one compression pointer (independent reader); distinct = distinct (sequence, builder)",
+        "exhaustive": true,
+        "bound": {"parse_items": if quick { 2 } else { 3 }, "raw_len": rawlen, "raw_alphabet": raw, "build_depth": depth, "build_alphabet": OPS.iter().map(|o| op_desc(*o)).collect::<Vec<_>>()},
+        "parse_cases": parse_evals,
+        "unit_view_outcomes": Value::Object(hist),
+        "distinct_unit_outcomes_observed": outcomes_seen,
+        "whitelisted_by_rule": {
+            "pointer-not-before-its-name-segment (absolute.rs:411-416, reversed.rs:328-333)": g(&WL_FORWARD),
+            "pointer-into-the-12-octet-header (parse/mod.rs:240-243,329-332)": g(&WL_HEADER),
+            "bounded-range parser: name needs octets beyond the range it was given (parse/mod.rs:240-243)": g(&WL_RANGE),
+        },
+        "typed_strictness_differences_counted_not_asserted": json!(*STRICTNESS.lock().unwrap()),
+        "build": {
+            "cases(sequence x builder)": g(&bs.sequences),
+            "outputs_with_compression_pointers": g(&bs.with_pointers),
+            "outputs_longer_than_0x4000": g(&bs.crossing),
+            "pointers_checked": g(&bs.pointers),
+            "max_pointer_target_seen": g(&bs.max_target),
+            "pushes_accepted": g(&bs.accepted),
+            "pushes_misplaced(both refuse)": g(&bs.misplaced),
+            "pad_ops_not_applicable": g(&bs.pad_skipped),
+            "outputs_read_back_equal_by_other_codec_and_independent_reader": g(&bs.checks_ok),
+        },
+        "samples": stats.samples(),
+        "counters": stats.counters_json(),
+    });
+    ctx.finish(
+        cov,
+        &[
+            "octet values outside the menus, messages with more than three items and build scripts longer than the depth bound are not covered",
+            "documented differences are excused by rule only in the direction established=accept/new=reject: a pointer that does not point before the start of the name segment it ends, and a pointer into the 12-octet header",
+            "typed RDATA is compared only for the 20 record types both codecs parse; for other types the new codec must pass the RDATA through verbatim",
+            "name comparison in Part 2 is ASCII case-insensitive (compression may reuse a differently-cased earlier occurrence); Part 1 compares case-sensitively",
+            "the build is made with overflow checks on: an arithmetic overflow in the subject shows up as a panic",
+            "a case that does not finish within 20 s is reported as a hang",
+        ],
+    );
 }
